@@ -151,12 +151,23 @@ Fixpoint take_outs (n : nat) (ss : list bytes) (zs : list Z) : option (list out_
     match ss, zs with
     | s :: ss', mode :: maxr :: maxb :: zs' =>
       match p_ser s, take_outs n' ss' zs' with
-      | Some sc, Some r => Some ({| oc_kind := OFluentd sc; oc_pack := Packer.fluentd_config mode maxr maxb [] |} :: r)
+      | Some sc, Some r =>
+        if (mode =? 3)%Z   (* a datadog output: only its hidden fields are read; the chunk limits are constants *)
+        then Some ({| oc_kind := ODatadog (Serializer.c_hidden sc); oc_pack := Packer.datadog_config 1000 5242880 |} :: r)
+        else Some ({| oc_kind := OFluentd sc; oc_pack := Packer.fluentd_config mode maxr maxb [] |} :: r)
       | _, _ => None
       end
     | _, _ => None
     end
   end.
+
+(* The datadog stream is json.Marshal of a map[string]string, which the model does not have.  The correspondence
+   compares the MAP instead: the Go side decodes the JSON it got, both sides render the entries sorted by key as
+   key 0x00 value 0x01 ... - when every value is valid UTF-8 (json.Marshal replaces invalid bytes); otherwise "skip". *)
+Definition dd_canon (m : list (bytes * bytes)) : bytes :=
+  if forallb (fun kv => Utf8.valid (snd kv)) m
+  then concat (map (fun kv => fst kv ++ 0%N :: snd kv ++ [1%N]) (Transforms.sort_pairs m))
+  else [115;107;105;112]%N.
 
 (* the configuration part of a case: sargs 0..6 and one per output, zargs 0..6 and three per output *)
 Definition decode_config (O : Transforms.oracles) (c : case) : option (config * list bytes * list Z) :=
@@ -181,7 +192,7 @@ Definition decode_config (O : Transforms.oracles) (c : case) : option (config * 
         Some ({| c_parser := pcfg; c_nfields := nfields; c_schema := schema; c_locs := locs;
                  c_extract := ex; c_okeys := okeys; c_tag := tag; c_mkeys := mkeys; c_transforms := tr;
                  c_outputs := outs; c_buflen := 2 * Z.to_nat (zarg c 2); c_linebuf := Z.to_nat (zarg c 3);
-                 c_local_off := 0; c_json := (fun _ => []); c_fix_labels := true; c_fix_ser := true |},
+                 c_local_off := 0; c_json := dd_canon; c_fix_labels := true; c_fix_ser := true |},
               skipn (7 + nout) ss, skipn (7 + 3 * nout) zs)
       else None
     | _, _, _, _, _, _, _, _ => None
